@@ -45,3 +45,40 @@ Definition check_conv (c : input * option output) : bool :=
 Definition check_history (h : list (input * option output)) : bool :=
   let outs := snd (run_history (conversion ident) ps0 (map fst h)) in
   list_eqb2 res_output_eqb outs (map snd h).
+
+(* ---- with the upstream phases (C18/Upstream.v) ---- *)
+From T4V Require Import C18.Upstream.
+
+Definition items_eqb (a b : list (Z * list Z)) : bool :=
+  list_eqb (pair_eqb Z.eqb zlist_eqb) a b.
+
+(* the counter and the surface dictionary the upstream model computes are the
+   ones observed when number_items / the cell loop start *)
+Definition check_upstream (c : uinput * input) : bool :=
+  match upstream (fst c) with
+  | Ok (ck, items) => (ck =? i_key0 (snd c)) && items_eqb items (i_items (snd c))
+  | Err _ => false
+  end.
+
+(* one step of a mixed history: with the upstream trace when it was captured,
+   from the numbering on otherwise *)
+Definition mixed_step (fs : fstate) (c : option uinput * input) : fstate * res output :=
+  match fst c with
+  | Some u => full_conversion ident fs (u, snd c)
+  | None => let '(ps', out) := conversion ident (f_down fs) (snd c) in (mkFs (f_up fs) ps', out)
+  end.
+
+Fixpoint mixed_history (fs : fstate) (h : list (option uinput * input)) : list (res output) :=
+  match h with
+  | [] => []
+  | c :: r => let '(fs1, out) := mixed_step fs c in out :: mixed_history fs1 r
+  end.
+
+Definition check_full_history (h : list (option uinput * input * option output)) : bool :=
+  list_eqb2 res_output_eqb (mixed_history fs0 (map fst h)) (map snd h)
+  && forallb (fun c => match fst (fst c) with
+                       | Some u => check_upstream (u, snd (fst c))
+                       | None => true end) h.
+
+Definition check_full (c : option uinput * input * option output) : bool :=
+  check_full_history [c].
